@@ -463,6 +463,28 @@ def run_objects(desc):
     return out
 
 
+PICKLE_SCRIPT = r'''
+import sys, json, base64, pickle
+sys.path.insert(0, %(verif)r)
+from wcverif import bootstrap
+bootstrap()
+from wcmatch import fnmatch as F, glob as G
+bad = []
+for kind, p, fl, ex, blob in json.load(open(%(path)r)):
+    m = pickle.loads(base64.b64decode(blob))
+    local = (F if kind == 'fn' else G).compile(p, flags=fl, **({} if ex is None else {'exclude': ex}))
+    if not (m == local) or (m != local):
+        bad.append([kind, p, fl, ex, 'not equal'])
+    elif hash(m) != hash(local):
+        bad.append([kind, p, fl, ex, 'hash differs'])
+    elif m not in {local} or local not in {m: 1}:
+        bad.append([kind, p, fl, ex, 'not found in a set/dict'])
+    elif bool(m.match('a')) != bool(local.match('a')) or bool(m.match('x/y/a')) != bool(local.match('x/y/a')):
+        bad.append([kind, p, fl, ex, 'behaves differently'])
+print(json.dumps(bad))
+'''
+
+
 FRESH_SCRIPT = r'''
 import sys, json
 sys.path.insert(0, %(verif)r)
@@ -808,6 +830,33 @@ def run_fresh(desc):
             # keyed on all arguments shows here even though it survives cache_clear()
             out.violation({'call': d, 'forward_order': v, 'reverse_order': v2, 'problem': 'result depends on the order of earlier calls (fresh interpreters)'},
                           bucket=('order', d[0]))
+    # matchers pickled here and loaded in an interpreter with another hash seed: equal and hash-equal to the ones compiled there
+    import base64
+    import tempfile
+    keys = [('fn', p_, fl_, ex_) for p_ in PATS[:12] for fl_ in FLAGSETS_FN[:6] for ex_ in (None, 'b*')] + \
+           [('gl', p_, fl_, None) for p_ in PATS[:12] for fl_ in FLAGSETS_GL[:6]] + [('gl', '**/a', G.G | G.P | G.L, None), ('gl', '**', G.G | G.P, 'b*')]
+    blobs = []
+    for kind_, p_, fl_, ex_ in keys:
+        try:
+            m_ = (F if kind_ == 'fn' else G).compile(p_, flags=fl_, **({} if ex_ is None else {'exclude': ex_}))
+        except Exception:
+            continue
+        blobs.append([kind_, p_, fl_, ex_, base64.b64encode(pickle.dumps(m_)).decode()])
+    with tempfile.NamedTemporaryFile('w', suffix='.json', delete=False) as tf:
+        json.dump(blobs, tf)
+    try:
+        r = subprocess.run([sys.executable, '-c', PICKLE_SCRIPT % {'verif': VERIF_DIR, 'path': tf.name}], capture_output=True, text=True, timeout=600,
+                           env=dict(env, PYTHONHASHSEED='4242'))
+    finally:
+        os.unlink(tf.name)
+    if r.returncode != 0:
+        raise HarnessError('fresh interpreter (pickles) failed: ' + r.stderr[-500:])
+    bad = json.loads([l for l in r.stdout.splitlines() if l.startswith('[')][-1])
+    out.evaluations += len(blobs)
+    for b_ in bad:
+        out.violation({'key': b_[:4], 'what': b_[4], 'problem': 'a matcher pickled in one interpreter is not equal / hash-equal / found in a set '
+                       'next to the same matcher compiled in another interpreter'}, bucket=('pickle-cross', b_[4]))
+    out.nontrivial(('pickle-cross', len(blobs)))
     out.nontrivial(('fresh', len(sel)))
     out.nontrivial(('fresh-hashseed', 1))
     out.sample({'kind': 'fresh interpreter', 'descriptors': len(sel), 'PYTHONHASHSEED': 1})
